@@ -286,6 +286,13 @@ def one_dataset(ctx, rng, xr):
         ms, mc = I.momd_per_freq(E, th, dd, nmom)
         chk("momd", get(r[0], ["freq"]), ms, scale=e1)
         chk("momd", get(r[1], ["freq"]), mc, scale=e1)
+    th_m = float(rng.choice([0.0, 45.0, 180.0, float(rng.uniform(-180, 360))]))
+    nm2 = int(rng.integers(0, 4))
+    r = call("momd_theta", lambda: acc.momd(nm2, theta=th_m))
+    if r is not None:
+        ms, mc = I.momd_per_freq(E, th, dd, nm2, theta=th_m)
+        chk("momd_theta", get(r[0], ["freq"]), ms, scale=e1)
+        chk("momd_theta", get(r[1], ["freq"]), mc, scale=e1)
     ux, uy, us = I.stokes(E, f64, th, dd, I.k_deep(f64))
     for op, ref, kw in (("uss", us, {}), ("uss_x", ux, {}), ("uss_y", uy, {})):
         r = call(op, lambda: getattr(acc, op)(**kw))
